@@ -32,6 +32,17 @@ SKEL = {
     "emptyonly": (0, lambda l: ([], {})),
 }
 
+# values JAX itself cannot flatten (unorderable dict keys, a node whose flatten raises) and plain
+# objects: bare `PyTree` accepts everything, so it must not try
+BARE = {
+    "mixdict": lambda l: {1: l[0], "two": l[1]},
+    "mixdict-nested": lambda l: [({1: l[0], "two": l[1]},), l[1]],
+    "badnode": lambda l: T.BadNode(l[0], l[1]),
+    "badnode-nested": lambda l: {"k": [T.BadNode(l[0]), l[1]]},
+    "object": lambda l: object(),
+    "array": lambda l: l[0],
+}
+
 ARR_SPECS = [("arr", "a b"), ("arr", "*v a"), ("arr", "#a"), ("arr", "a"), ("arr", "a a+1"),
              ("union", [("arr", "a 3"), ("arr", "a b")]), ("union", [("arr", "a"), ("py", "int")]),
              ("tup", [("arr", "a"), ("arr", "a b")]), ("arr", "*#v"), ("union", [("arr", "c+1"), ("arr", "a")])]
@@ -76,6 +87,8 @@ def instances(tier, seed):
         out.append(("pool", dict(skel=sk, spec=("union", [("tup", [("py", "int"), ("py", "int")]), ("py", "str")]),
                                  kinds=["int"] * SKEL[sk][0], prior=[], maxrank=1)))
     rng.shuffle(out)
+    for b in BARE:
+        out.insert(0, ("pool", dict(skel=b, bareonly=True, kinds=["arr", "arr"], maxrank=1, spec=("any",), prior=[])))
     ncore = 260 if tier == "quick" else len(out)
     return [("core" if i < ncore else "ext", x) for i, (_, x) in enumerate(out)]
 
@@ -154,6 +167,8 @@ def scenario(inst, V):
     spec = tuple(inst["spec"]) if not isinstance(inst["spec"], tuple) else inst["spec"]
     spec = _tuplify(spec)
     leaves = make_leaves(inst, V)
+    if inst.get("bareonly"):
+        return scenario_bare(inst, V, leaves)
     tree = SKEL[inst["skel"]][1](leaves)
     ann = PyTree[T.to_ann(spec, V.ARR)]
     ann2 = PyTree[PyTree[T.to_ann(spec, V.ARR)]]
@@ -180,6 +195,28 @@ def scenario(inst, V):
     if g1 == g2:
         compare.check_unchanged(V, "nesting-bindings", p1, p2)
     return dict(single=g1, double=g2, bindings=p1["single"])
+
+
+def scenario_bare(inst, V, leaves):
+    """bare PyTree accepts everything: also what JAX cannot flatten, inside and outside a context,
+    and as a parameter annotation under both typecheckers"""
+    from checks import fnlib
+    from jaxtyping import jaxtyped, PyTree
+    tree = BARE[inst["skel"]](leaves)
+    out = []
+    out.append(observe(tree, PyTree))
+    with jaxtyped("context"):
+        pre = base.bindings()
+        out.append(observe(tree, PyTree))
+        compare.check_unchanged(V, "unchanged", pre, base.bindings(), verdict="bare")
+    for tc in ("typeguard", "beartype"):
+        fnlib.HOLD["ret"] = None
+        fnlib.HOLD["body_exc"] = None
+        fn, pn = fnlib.build([None], None, V.ARR, tc, "function", anns=[PyTree])
+        kind, _ = fnlib.call(fn, pn, [tree], "pos")
+        out.append(kind)
+    V.check("bare", out == ["ACC", "ACC", "OK", "OK"], got=out, value=inst["skel"])
+    return dict(bare=out)
 
 
 def _replay_priors(inst, V):
